@@ -389,7 +389,29 @@ def run(ctx):
             ctx.violate("R6", "nbasis does not return the accumulated sum starting from 0", nb, nb.node, construct="nbasis accumulator")
     mb = prog.cls("iodata.basis.MolecularBasis")
     g = mb.getters.get("nbasis")
-    if g is not None and "sum((shell.nbasis for shell in self.shells))" in src_of(g.node):
-        ctx.ok("R6", "MolecularBasis.nbasis = sum(shell.nbasis for shell in shells)", f"{g.module.relpath}:{g.lineno}")
+    if g is None:
+        ctx.violate("R6", "MolecularBasis has no nbasis property", relpath=mb.module.relpath, function=mb.qualname, construct="MolecularBasis.nbasis")
     else:
-        ctx.violate("R6", "MolecularBasis.nbasis is not the sum over its shells", g, g.node if g else None, construct="MolecularBasis.nbasis")
+        # evaluated: the accessor on model bases (s, pure d, SP, Cartesian f; none) against the sum of the shells' counts
+        from ..accessors import AccessorEval, Raised, Rec
+        from ..symarr import NotSymbolic
+
+        def shell_(ls, ks):
+            return Rec(sh, icenter=0, angmoms=np.array(ls), kinds=list(ks), exponents=np.array([1.0]), coeffs=np.ones((1, len(ls))))
+
+        bad = None
+        for shells_, want in (([shell_([0], ["c"]), shell_([2], ["p"]), shell_([0, 1], ["c", "c"]), shell_([3], ["c"])], 1 + 5 + 4 + 10), ([], 0), ([shell_([4], ["p"])], 9)):
+            try:
+                got = AccessorEval(prog, mb, limit=4000).get(Rec(mb, shells=shells_, conventions={}, primitive_normalization="L2"), "nbasis")
+            except Raised as exc:
+                bad = f"raises {exc.args[0]} for a basis of {len(shells_)} shells"
+                break
+            except NotSymbolic as exc:
+                raise AnalysisError(f"MolecularBasis.nbasis is outside the evaluation whitelist: {exc}") from exc
+            if int(got) != want:
+                bad = f"gives {got} for shells with {[int(AccessorEval(prog, sh).get(s_, 'nbasis')) for s_ in shells_]} functions (their sum is {want})"
+                break
+        if bad:
+            ctx.violate("R6", f"MolecularBasis.nbasis {bad}", g, g.node, construct="MolecularBasis.nbasis")
+        else:
+            ctx.ok("R6", "MolecularBasis.nbasis is the sum of the function counts of its shells (evaluated on three model bases, the empty one included)", f"{g.module.relpath}:{g.lineno}")
